@@ -322,7 +322,8 @@ Qed.
 
 Section SortOp.
 Variable hash : list N -> N.
-Notation inv := (inv hash).
+Variable bound : positive.
+Notation inv := (inv hash bound).
 
 Lemma swap_payok a b : payok hash a -> payok hash b -> payok hash (fst (swap_payload a b)) /\ payok hash (snd (swap_payload a b)).
 Proof. unfold payok. simpl. tauto. Qed.
@@ -335,7 +336,7 @@ Theorem qsort_spec t : inv t ->
     abs t2 = ssort (cfg_of t) (abs t).
 Proof.
   intros I. unfold qsort.
-  assert (Hn : N.to_nat (t_num t) = length (t_ents t)) by (rewrite (inv_num _ _ I); apply Nat2N.id).
+  assert (Hn : N.to_nat (t_num t) = length (t_ents t)) by (rewrite (inv_num _ _ _ I); apply Nat2N.id).
   rewrite Hn.
   destruct (bsort_spec (ncmp (t_casei t)) (ncmp_opp _) (ncmp_trans _) (S (length (t_ents t))) (t_ents t) (length (t_ents t)) (t_ents t) [])
     as (l' & R & B & S); auto.
